@@ -26,19 +26,25 @@ def leak_scenarios(rnd, n, start_id):
     return out
 
 
-def check_remove_leak(ck, w, rnd):
+def check_remove_leak(ck, w, rnd, after_run=False):
     """remove_leak: no leak flow and no leak controls remain (API-level replay, judged by the same trace spec)"""
     import simnet
     s = leak_scenarios(rnd, 1, 9000)[0]
-    for nd in s["nodes"]:
-        if nd["type"] == "T":
-            nd["leak"]["on"] = False
     wn = simnet.build(w, s)
     n_before = len(list(wn.controls()))
+    if after_run:
+        # history: run with the leaks (some still active at the end), then remove them, reset and run again
+        for nd in s["nodes"]:
+            if nd.get("leak", {}).get("on"):
+                nd["leak"]["end"] = -1
+                wn._discard_control(wn.get_node(nd["name"])._leak_end_control_name)
+        simnet.run_wntr(w, wn, HW_approx=s["hw"])
     for nd in s["nodes"]:
         if nd.get("leak", {}).get("on"):
             wn.get_node(nd["name"]).remove_leak(wn)
             nd["leak"]["on"] = False
+    if after_run:
+        wn.reset_initial_values()
     leftover = [name for name, c in wn.controls() if "leak" in name.lower()]
     if leftover:
         ck.violation("C08.leak_removed", "leak controls remain after remove_leak", {"scn": s, "controls": leftover})
@@ -85,7 +91,8 @@ def main(tier, replay):
                             return "leak demand of %s x 1.01" % nd["name"]
             return None
         hyd.selftest(ck, "C08", good, props, mutate)
-        check_remove_leak(ck, common.import_wntr(), rnd)
+        for k in range(6 if tier == "quick" else 60):
+            check_remove_leak(ck, common.import_wntr(), rnd, after_run=bool(k % 2))
         c = ck.cov["counters"]
         for k in ("leak_rows_inactive", "leak_rows_positive_pressure", "windows_off_grid", "leaks_on_J"):
             if not c.get(k):
